@@ -38,16 +38,18 @@ def rclass : RCmd → RClass
 def HostOpen (s : State) (cmds : List Command) (key : BList) : Prop :=
   (∃ q ∈ s.resolvers, q.1 = key) ∨ ∃ h ch t, Command.resolveHost h ch t ∈ cmds ∧ lower h = key
 
-/-- something is browsed in `s` or a command starts a browse -/
+/-- something is browsed ACTIVELY in `s` (`browse`, not `browse_cache`) or a command starts an
+    active browse: a cache-only browse causes no query (repairs of D23 / D23b) -/
 def Browsing (s : State) (cmds : List Command) : Prop :=
-  s.queriers ≠ [] ∨ ∃ ty ch co, Command.browse ty ch co ∈ cmds
+  (∃ q ∈ s.queriers, q.1 ∉ s.cacheOnly) ∨ ∃ ty ch, Command.browse ty ch false ∈ cmds
 
 /-- The cause of an output, in a state `s` with the commands `cmds` and the queued re-runs of the
     classes `rcs`:
     * an event goes to the channel of a browse or a hostname search of `s`, of a re-run of `rcs`,
       or of a command;
     * `[(ty, PTR)]` is asked for a type of `s` that is browsed and NOT cache-only (the refresh of
-      its PTR records; since the repair of D23), a browse re-run, or a `browse` command;
+      its PTR records; since the repair of D23), a browse re-run, or a `browse` command (not
+      `browse_cache`);
     * `[(h, A), (h, AAAA)]` is asked for a hostname search (re-run or command, the search open),
       or is browse work: a follow-up, or the address refresh of a browsed service;
     * a single A or AAAA question is the address refresh of an open hostname search;
@@ -63,7 +65,7 @@ inductive Origin (s : State) (cmds : List Command) (rcs : List RClass) : Out →
       Origin s cmds rcs (.query [(q.1, 12)] known)
   | ptrRerun (ty : BList) (ch : Nat) (known : List Record) : RClass.browse ty ch ∈ rcs →
       Origin s cmds rcs (.query [(ty, 12)] known)
-  | ptrCommand (ty : BList) (ch : Nat) (co : Bool) (known : List Record) : Command.browse ty ch co ∈ cmds →
+  | ptrCommand (ty : BList) (ch : Nat) (known : List Record) : Command.browse ty ch false ∈ cmds →
       Origin s cmds rcs (.query [(ty, 12)] known)
   | hostRerun (h : BList) (ch : Nat) (known : List Record) : RClass.host h ch ∈ rcs → HostOpen s cmds (lower h) →
       Origin s cmds rcs (.query [(h, 1), (h, 28)] known)
@@ -98,7 +100,7 @@ theorem Origin.pull {s s' : State} {cmds cmds' : List Command} {rcs rcs' : List 
     (h : Origin s cmds rcs o)
     (hq : ∀ q ∈ s.queriers, q ∈ s'.queriers ∨ ∃ co, Command.browse q.1 q.2 co ∈ cmds')
     (ha : ∀ q ∈ s.queriers, q.1 ∉ s.cacheOnly →
-      (q ∈ s'.queriers ∧ q.1 ∉ s'.cacheOnly) ∨ ∃ ch co, Command.browse q.1 ch co ∈ cmds')
+      (q ∈ s'.queriers ∧ q.1 ∉ s'.cacheOnly) ∨ ∃ ch, Command.browse q.1 ch false ∈ cmds')
     (hv : ∀ q ∈ s.resolvers, q ∈ s'.resolvers ∨ ∃ h t, Command.resolveHost h q.2.1 t ∈ cmds' ∧ q.1 = lower h)
     (hc : ∀ c ∈ cmds, c ∈ cmds') (hr : ∀ r ∈ rcs, r ∈ rcs') : Origin s' cmds' rcs' o := by
   have hopen : ∀ key, HostOpen s cmds key → HostOpen s' cmds' key := by
@@ -110,17 +112,11 @@ theorem Origin.pull {s s' : State} {cmds cmds' : List Command} {rcs rcs' : List 
     · exact Or.inr ⟨h0, ch, t, hc _ h1, h2⟩
   have hbr : Browsing s cmds → Browsing s' cmds' := by
     intro hb
-    rcases hb with hb | ⟨ty, ch, co, hb⟩
-    · cases hs : s.queriers with
-      | nil => exact absurd hs hb
-      | cons q rest =>
-        rcases hq q (by rw [hs]; exact List.mem_cons_self) with h1 | ⟨co, h1⟩
-        · left
-          intro h2
-          rw [h2] at h1
-          cases h1
-        · exact Or.inr ⟨_, _, co, h1⟩
-    · exact Or.inr ⟨ty, ch, co, hc _ hb⟩
+    rcases hb with ⟨q, hq1, hq2⟩ | ⟨ty, ch, hb⟩
+    · rcases ha q hq1 hq2 with ⟨h1, h2⟩ | ⟨ch, h1⟩
+      · exact Or.inl ⟨q, h1, h2⟩
+      · exact Or.inr ⟨_, ch, h1⟩
+    · exact Or.inr ⟨ty, ch, hc _ hb⟩
   cases h with
   | evQuerier q e h1 =>
     rcases hq q h1 with h2 | ⟨co, h2⟩
@@ -134,11 +130,11 @@ theorem Origin.pull {s s' : State} {cmds cmds' : List Command} {rcs rcs' : List 
   | evRerunH h0 ch e h1 h2 => exact .evRerunH h0 ch e (hr _ h1) (hopen _ h2)
   | evCommand c ch e h1 h2 => exact .evCommand c ch e (hc c h1) h2
   | ptrQuerier q known h1 h1a =>
-    rcases ha q h1 h1a with ⟨h2, h3⟩ | ⟨ch, co, h2⟩
+    rcases ha q h1 h1a with ⟨h2, h3⟩ | ⟨ch, h2⟩
     · exact .ptrQuerier q known h2 h3
-    · exact .ptrCommand q.1 ch co known h2
+    · exact .ptrCommand q.1 ch known h2
   | ptrRerun ty ch known h1 => exact .ptrRerun ty ch known (hr _ h1)
-  | ptrCommand ty ch co known h1 => exact .ptrCommand ty ch co known (hc _ h1)
+  | ptrCommand ty ch known h1 => exact .ptrCommand ty ch known (hc _ h1)
   | hostRerun h0 ch known h1 h2 => exact .hostRerun h0 ch known (hr _ h1) (hopen _ h2)
   | hostCommand h0 ch t known h1 => exact .hostCommand h0 ch t known (hc _ h1)
   | hostFollowup h0 known h1 => exact .hostFollowup h0 known (hr _ h1)
@@ -168,7 +164,7 @@ theorem AllOrigin.pull {s s' : State} {cmds cmds' : List Command} {rcs rcs' : Li
     (h : AllOrigin s cmds rcs outs)
     (hq : ∀ q ∈ s.queriers, q ∈ s'.queriers ∨ ∃ co, Command.browse q.1 q.2 co ∈ cmds')
     (ha : ∀ q ∈ s.queriers, q.1 ∉ s.cacheOnly →
-      (q ∈ s'.queriers ∧ q.1 ∉ s'.cacheOnly) ∨ ∃ ch co, Command.browse q.1 ch co ∈ cmds')
+      (q ∈ s'.queriers ∧ q.1 ∉ s'.cacheOnly) ∨ ∃ ch, Command.browse q.1 ch false ∈ cmds')
     (hv : ∀ q ∈ s.resolvers, q ∈ s'.resolvers ∨ ∃ h t, Command.resolveHost h q.2.1 t ∈ cmds' ∧ q.1 = lower h)
     (hc : ∀ c ∈ cmds, c ∈ cmds') (hr : ∀ r ∈ rcs, r ∈ rcs') : AllOrigin s' cmds' rcs' outs :=
   fun o ho => (h o ho).pull hq ha hv hc hr
@@ -318,12 +314,15 @@ theorem origin_execCommand (s : State) (cmds : List Command) (rcs : List RClass)
       · exact .evCommand _ ch _ hc rfl
       · exact hq' o ho
       · exact .evCommand _ ch _ hc rfl
-    · intro o ho
+    · rename_i hco
+      have hco' : co = false := by simpa using hco
+      subst hco'
+      intro o ho
       simp only [List.mem_append, List.mem_singleton] at ho
       rcases ho with (rfl | ho) | rfl
       · exact .evCommand _ ch _ hc rfl
       · exact hq' o ho
-      · exact .ptrCommand ty ch co _ hc
+      · exact .ptrCommand ty ch _ hc
   | stopBrowse ty =>
     simp only [execCommand, execStopBrowse]
     split
@@ -406,7 +405,7 @@ theorem execCommand_browses_other (s : State) (now : Nat) (c : Command) (h : ∀
     command is a `browse` / `browse_cache` of its type -/
 theorem active_execCommand (s : State) (now : Nat) (c : Command) (q : BList × Nat)
     (hq : q ∈ (execCommand s now c).1.queriers) (ha : q.1 ∉ (execCommand s now c).1.cacheOnly) :
-    (q ∈ s.queriers ∧ q.1 ∉ s.cacheOnly) ∨ ∃ ch co, c = Command.browse q.1 ch co := by
+    (q ∈ s.queriers ∧ q.1 ∉ s.cacheOnly) ∨ ∃ ch, c = Command.browse q.1 ch false := by
   cases c with
   | browse ty ch co =>
     have e1 : (execCommand s now (.browse ty ch co)).1.queriers = _ := execBrowse_new_queriers s now ty 1 co ch
@@ -414,7 +413,10 @@ theorem active_execCommand (s : State) (now : Nat) (c : Command) (q : BList × N
     rw [e1] at hq
     rw [e2] at ha
     rcases List.mem_cons.mp hq with rfl | hq
-    · exact Or.inr ⟨ch, co, rfl⟩
+    · cases co
+      · exact Or.inr ⟨ch, rfl⟩
+      · simp only [if_true] at ha
+        exact absurd ((mem_insertSet _ _ _).mpr (Or.inr rfl)) ha
     · obtain ⟨hq1, hq2⟩ := List.mem_filter.mp hq
       have hne : q.1 ≠ ty := by simpa using hq2
       refine Or.inl ⟨hq1, fun hin => ha ?_⟩
@@ -458,15 +460,15 @@ theorem active_execCommand (s : State) (now : Nat) (c : Command) (q : BList × N
 /-- ... and after a list of commands -/
 theorem active_runCommands (now : Nat) : ∀ (l : List Command) (s : State) (q : BList × Nat),
     q ∈ (runCommands s now l).1.queriers → q.1 ∉ (runCommands s now l).1.cacheOnly →
-    (q ∈ s.queriers ∧ q.1 ∉ s.cacheOnly) ∨ ∃ ch co, Command.browse q.1 ch co ∈ l
+    (q ∈ s.queriers ∧ q.1 ∉ s.cacheOnly) ∨ ∃ ch, Command.browse q.1 ch false ∈ l
   | [], _, _, hq, ha => Or.inl ⟨hq, ha⟩
   | c :: rest, s, q, hq, ha => by
     simp only [runCommands] at hq ha
-    rcases active_runCommands now rest _ q hq ha with ⟨h1, h2⟩ | ⟨ch, co, h⟩
-    · rcases active_execCommand s now c q h1 h2 with h3 | ⟨ch, co, rfl⟩
+    rcases active_runCommands now rest _ q hq ha with ⟨h1, h2⟩ | ⟨ch, h⟩
+    · rcases active_execCommand s now c q h1 h2 with h3 | ⟨ch, rfl⟩
       · exact Or.inl h3
-      · exact Or.inr ⟨ch, co, List.mem_cons_self⟩
-    · exact Or.inr ⟨ch, co, List.mem_cons_of_mem _ h⟩
+      · exact Or.inr ⟨ch, List.mem_cons_self⟩
+    · exact Or.inr ⟨ch, List.mem_cons_of_mem _ h⟩
 
 theorem origin_runCommands (cmds : List Command) (rcs : List RClass) (now : Nat) : ∀ (l : List Command) (s : State),
     (∀ c ∈ l, c ∈ cmds) → AllOrigin s cmds rcs (runCommands s now l).2
@@ -480,9 +482,9 @@ theorem origin_runCommands (cmds : List Command) (rcs : List RClass) (now : Nat)
       (fun _ h => h) (fun _ h => h)
     · exact hst.queriers
     · intro q hq ha
-      rcases active_execCommand s now c q hq ha with h | ⟨ch, co, rfl⟩
+      rcases active_execCommand s now c q hq ha with h | ⟨ch, rfl⟩
       · exact Or.inl h
-      · exact Or.inr ⟨ch, co, hc _ List.mem_cons_self⟩
+      · exact Or.inr ⟨ch, hc _ List.mem_cons_self⟩
     · intro q hq
       rcases hst.resolvers q hq with h | ⟨h0, t, h1, h2, _⟩
       · exact Or.inl h
@@ -689,11 +691,7 @@ theorem refreshSrvTxtGo_due_types (now : Nat) : ∀ (l : List BList) (s : SrvTxt
 
 theorem origin_refreshType (s : State) (cmds : List Command) (rcs : List RClass) (c : Cache) (now : Nat) (q : BList × Nat)
     (hq : q ∈ s.queriers) (hqa : q.1 ∉ s.cacheOnly) : AllOrigin s cmds rcs (refreshType c now q.1).2.1 := by
-  have hb : Browsing s cmds := by
-    left
-    intro h
-    rw [h] at hq
-    cases hq
+  have hb : Browsing s cmds := Or.inl ⟨q, hq, hqa⟩
   unfold refreshType
   simp only []
   refine (AllOrigin.append ?_ ?_).append ?_
@@ -864,7 +862,7 @@ theorem origin_tail (x : State) (now : Nat) (post : List Command) :
     · exact Or.inl h
     · exact Or.inr ⟨h0, t, h1, h2⟩
   have ha : ∀ q ∈ (runCommands x now post).1.queriers, q.1 ∉ (runCommands x now post).1.cacheOnly →
-      (q ∈ x.queriers ∧ q.1 ∉ x.cacheOnly) ∨ ∃ ch co, Command.browse q.1 ch co ∈ post :=
+      (q ∈ x.queriers ∧ q.1 ∉ x.cacheOnly) ∨ ∃ ch, Command.browse q.1 ch false ∈ post :=
     active_runCommands now post x
   -- frames: after the commands nothing touches queriers / resolvers
   have fc2 : (rerunPhase (runCommands x now post).1 now).1.cacheOnly = (runCommands x now post).1.cacheOnly :=
